@@ -69,10 +69,10 @@ const ptT = "Pt UInt64"
 
 var leanType = map[string]string{
 	"uint8": "Nat", "uint32": "Nat",
-	"geom.Point": ptT,
+	"geom.Point":   ptT,
 	"[]geom.Point": "List (" + ptT + ")", "geom.LineString": "List (" + ptT + ")", "geom.Path": "List (" + ptT + ")",
 	"geom.MultiPoint": "List (" + ptT + ")",
-	"[]geom.Path": "List (List (" + ptT + "))", "geom.Polygon": "List (List (" + ptT + "))",
+	"[]geom.Path":     "List (List (" + ptT + "))", "geom.Polygon": "List (List (" + ptT + "))",
 	"[]geom.LineString": "List (List (" + ptT + "))", "geom.MultiLineString": "List (List (" + ptT + "))",
 	"[]geom.Polygon": "List (List (List (" + ptT + ")))", "geom.MultiPolygon": "List (List (List (" + ptT + ")))",
 	"[]geom.Geom": "List BGeom", "geom.GeometryCollection": "List BGeom",
@@ -284,6 +284,8 @@ func load(repo string) *world {
 	return w
 }
 
+// files that are only compiled under the tag `verif` (add-only instrumentation hooks) are not part of the
+// package as its users build it; every other build constraint is ignored (the file is translated)
 func buildTagged(path string) bool {
 	b, err := os.ReadFile(path)
 	if err != nil {
@@ -294,7 +296,8 @@ func buildTagged(path string) bool {
 			break
 		}
 		if strings.HasPrefix(l, "//go:build") || strings.HasPrefix(l, "// +build") {
-			return true
+			f := strings.Fields(l)
+			return len(f) == 2 && f[1] == "verif" || len(f) == 3 && f[2] == "verif"
 		}
 	}
 	return false
@@ -1661,6 +1664,43 @@ func extract(repo string) int {
 			failures = failures[:len(failures)-1] // reported below if the function is reachable
 		}
 		w.references(f)
+	}
+	// package-level state the translated functions read (XDR, NDR, the dispatch table) must not be assigned
+	// anywhere but in init(), whether or not the assigning function is reachable from the entry points
+	for _, f := range w.funcs {
+		f := f
+		ast.Inspect(f.decl.Body, func(n ast.Node) bool {
+			check := func(e ast.Expr) {
+				if ix, ok := e.(*ast.IndexExpr); ok {
+					e = ix.X
+				}
+				if u, ok := e.(*ast.UnaryExpr); ok && u.Op == token.AND {
+					e = u.X
+				}
+				if id, ok := e.(*ast.Ident); ok && f.pkg == "wkb" {
+					if _, isBO := w.bovars[id.Name]; (isBO || id.Name == w.mapName) && id.Obj != nil && id.Obj.Kind == ast.Var {
+						if _, isDecl := id.Obj.Decl.(*ast.ValueSpec); isDecl {
+							failures = append(failures, failure{f.name + " (" + f.file + ")", "assignment to / address of the package-level variable " + id.Name})
+						}
+					}
+				}
+			}
+			switch x := n.(type) {
+			case *ast.AssignStmt:
+				if x.Tok != token.DEFINE {
+					for _, l := range x.Lhs {
+						check(l)
+					}
+				}
+			case *ast.IncDecStmt:
+				check(x.X)
+			case *ast.UnaryExpr:
+				if x.Op == token.AND {
+					check(x)
+				}
+			}
+			return true
+		})
 	}
 	// reachability from the entry points
 	roots := []string{"Read", "Decode", "Write", "Encode", "hex_Encode", "hex_Decode"}
